@@ -75,6 +75,7 @@ opkinds! {
     FinQuery = 34, 1;      // (via): 0 = finish_marking, 1 = mark_debt with zero debt (only if it hands out a MarkedArena)
     FinRes = 35, 1;        // (p): resurrect p.w's target, keep nothing
     FinResStore = 36, 3;   // (p, q, s): resurrect p.w's target and store it into q.s[s] (Gc::write through Finalization)
+    FinResInto = 95, 2;    // (p, c): resurrect p.w's target and, in the same callback, WRITE into the revived object (its slot 0 := c, through Gc::write)
     FinResChild = 39, 1;   // (p): upgrade p.w's target during finalization and Gc::resurrect its strong child s[0] (a plain-white dead object)
     FinGcRes = 37, 1;      // (p): upgrade-free path: Gc::resurrect on the strong child p.w -> via GcWeak::upgrade if possible
     // ---- collector (class: 0 = debt eps, 1 = debt zero, 2 = debt huge) ----
@@ -134,7 +135,7 @@ impl Op {
         matches!(self.k, K::CycleStep | K::MarkStep | K::Step | K::FinMark | K::FinCycle | K::StartSweep | K::Fault)
     }
     pub fn is_fin(self) -> bool {
-        matches!(self.k, K::FinQuery | K::FinRes | K::FinResStore | K::FinGcRes | K::PFin | K::FinResLeaf | K::FinResChild)
+        matches!(self.k, K::FinQuery | K::FinRes | K::FinResStore | K::FinResInto | K::FinGcRes | K::PFin | K::FinResLeaf | K::FinResChild)
     }
     /// A mutator callback (`mutate`, `mutate_root`, `map_root`, `try_map_root`).
     pub fn is_mutator(self) -> bool {
